@@ -137,6 +137,10 @@ def main() -> int:
                 continue
             with open(out) as f:
                 agg.merge_json(json.load(f))
+        if hasattr(drv, "crosscheck"):
+            # the pristine outcome of a document must not depend on PYTHONHASHSEED
+            for v in drv.crosscheck([os.path.join(tmp, f"prep{k}") for k in range(len(hss))], hss, seed, args.tier):
+                agg.violations.append(v)
     finally:
         shutil.rmtree(tmp, ignore_errors=True)
 
